@@ -25,7 +25,7 @@ pub static DEF: PropDef = PropDef {
     id: "C04",
     level: "exploration",
     engine: "query",
-    rule: "one run = a generated dataset (20..120 rows, 3 metrics, nullable host label, exact-in-f64 values, timestamps placed minutes / hours / days before and slightly after the virtual now, on hour-bucket edges +-1 ns, in one run of six also before the epoch) ingested through the real Ingester with a drawn flush threshold (so the same rows land in 1..k chunks in different orders), on either catalog backend, with either timestamp column type; 6..12 generated SELECTs whose WHERE confines the timestamp to a finite window by construction (comparisons in both operand orders against integer / TIMESTAMP-literal / now()-relative bounds, BETWEEN, =, AND/OR/NOT nests, unions of windows, label predicates, projections, count/sum/min/max/avg, GROUP BY), each run cold and warm, before and after a real compaction cycle, a third of the runs over a flaky store during the query phase (failed requests, response bodies breaking part-way: a query may fail then, a returned answer must still be exact), with a tiny or large L1 cache and adaptive indexing on or off; the answer must equal the same SQL on a MemTable of all ingested rows (multiset of canonically rendered rows); distinct = distinct (dataset, query text) hash; non-trivial = the reference answer is non-empty or the window straddles data",
+    rule: "one run = a generated dataset (20..120 rows, 3 metrics, nullable host label (in a quarter of the Int64-timestamp runs some chunks lack the label column altogether), exact-in-f64 values, timestamps placed minutes / hours / days before and slightly after the virtual now, on hour-bucket edges +-1 ns, in one run of six also before the epoch) ingested through the real Ingester with a drawn flush threshold (so the same rows land in 1..k chunks in different orders), on either catalog backend, with either timestamp column type; 6..12 generated SELECTs whose WHERE confines the timestamp to a finite window by construction (comparisons in both operand orders against integer / TIMESTAMP-literal / now()-relative bounds, BETWEEN, =, AND/OR/NOT nests, unions of windows, label predicates, projections, count/sum/min/max/avg, GROUP BY), each run cold and warm, before and after a real compaction cycle, a third of the runs over a flaky store during the query phase (failed requests, response bodies breaking part-way: a query may fail then, a returned answer must still be exact), with a tiny or large L1 cache and adaptive indexing on or off; the answer must equal the same SQL on a MemTable of all ingested rows (multiset of canonically rendered rows); distinct = distinct (dataset, query text) hash; non-trivial = the reference answer is non-empty or the window straddles data",
     quick_runs: 600,
     thorough_runs: 10_000,
     run_cap_ms: 120_000,
@@ -75,6 +75,10 @@ fn scen(_spec: RunSpec) -> ScenFut {
         // one run in six also holds rows from before the epoch (negative timestamps, on and next to an hour edge)
         let pre_epoch = sim::w(6) == 5;
         let n_batches = sim::w_range(5, 20);
+        let evolving = ts_type_int && sim::w(4) == 3;
+        if evolving {
+            sim::probe("label-column-missing-in-some-chunks");
+        }
         let mut all_rows: Vec<Row> = Vec::new();
         let mut points: Vec<i64> = vec![now, now - HOUR, bucket(now), bucket(now) - HOUR];
         for bi in 0..n_batches {
@@ -94,7 +98,18 @@ fn scen(_spec: RunSpec) -> ScenFut {
                 points.push(r.ts);
             }
             all_rows.extend(rows.clone());
-            if let Err(e) = ing.write(batch(variant, &rows)).await {
+            // label sets vary between series: in a quarter of the Int64-timestamp runs some batches come without the host
+            // label column at all (their rows read as host = NULL)
+            // (the first batch always carries the label column: a column no ingested batch has is not part of the data)
+            let this_variant = if evolving && bi > 0 && sim::w_bool(40) { 0 } else { variant };
+            let rows: Vec<Row> = if this_variant == 0 { rows.into_iter().map(|mut r| { r.host = None; r }).collect() } else { rows };
+            if this_variant == 0 {
+                // (all_rows was extended with the original rows above: replace the tail by the host-less ones)
+                let n = rows.len();
+                let l = all_rows.len();
+                all_rows.splice(l - n.., rows.iter().cloned());
+            }
+            if let Err(e) = ing.write(batch(this_variant, &rows)).await {
                 sim::violation("C04/ingest-failed", e.to_string());
                 return;
             }
@@ -318,7 +333,9 @@ fn scen(_spec: RunSpec) -> ScenFut {
                         }
                         Err(e) => {
                             let es = e.to_string();
-                            let cause = if fresh_node && (es.contains("No field named") || es.contains("Cannot infer common") || es.contains("cannot be cast") || es.contains("Cannot coerce") || es.contains("type_coercion")) {
+                            let cause = if evolving && es.contains("No field named") {
+                                "column-missing-in-some-chunks"
+                            } else if fresh_node && (es.contains("No field named") || es.contains("Cannot infer common") || es.contains("cannot be cast") || es.contains("Cannot coerce") || es.contains("type_coercion")) {
                                 "fresh-node-default-schema"
                             } else {
                                 classify(sql, features)
